@@ -369,6 +369,64 @@ func runInheritance(c *Ctx) {
 						}
 					}
 				}
+				// and nothing else decides: a trip around the pass's loop that does not store must have failed one of the
+				// three conditions the rule names (no parent, parent not a station, own value specified); a path that
+				// skips the store for any other reason leaves out stops the rule covers
+				var loop *Loop
+				for _, l := range naturalLoops(b.Parent()) {
+					if l.Blocks[b] && (loop == nil || len(l.Blocks) < len(loop.Blocks)) {
+						loop = l
+					}
+				}
+				if loop != nil && len(loop.Header.Succs) > 0 {
+					station := strings.TrimPrefix(c.constOf("gtfs", "StopType_Station"), "const:")
+					unspec := strings.TrimPrefix(c.constOf("gtfs", "WheelchairBoarding_NotSpecified"), "const:")
+					start := loop.Header.Succs[0]
+					if !loop.Blocks[start] && len(loop.Header.Succs) > 1 {
+						start = loop.Header.Succs[1]
+					}
+					pathsWithin(start, loop, func(path []*ssa.BasicBlock, back bool) {
+						if !back {
+							return
+						}
+						stores, excused := false, false
+						for i, pb := range path {
+							for _, pin := range pb.Instrs {
+								if pin == ssa.Instruction(x) {
+									stores = true
+								}
+							}
+							cond, val, okE := edgeTaken(path, i, loop.Header)
+							if !okE {
+								continue
+							}
+							bo, isBo := cond.(*ssa.BinOp)
+							if !isBo {
+								continue
+							}
+							holdsEq := (bo.Op == token.EQL) == val // the equality bo.X == bo.Y holds on this edge
+							if bo.Op != token.EQL && bo.Op != token.NEQ {
+								continue
+							}
+							cx := canon(bo.X)
+							switch {
+							case isNilConst(bo.Y) && cx == "*("+stopCanon+".Parent)" && holdsEq:
+								excused = true // no parent
+							case cx == "*(*("+stopCanon+".Parent).Type)" && !holdsEq:
+								if k, isK := bo.Y.(*ssa.Const); isK && constKey(k) == station {
+									excused = true // parent is not a station
+								}
+							case cx == "*("+stopCanon+".WheelchairBoarding)" && !holdsEq:
+								if k, isK := bo.Y.(*ssa.Const); isK && constKey(k) == unspec {
+									excused = true // own value specified
+								}
+							}
+						}
+						if !stores && !excused {
+							c.Violated("INH", fname, "inheritance is not restricted further", p.ipos(x), "a stop with a parent station and no value of its own can pass through the inheritance pass without inheriting (the pass tests something else as well, e.g. the stop's own type)")
+						}
+					})
+				}
 				valOK := canon(x.Val) == "*(*("+stopCanon+".Parent).WheelchairBoarding)"
 				c.Check(hasParent, "INH", fname, "inheritance guarded by parent present", p.ipos(x), "store dominated by Parent != nil", "inherited value is stored without checking that the stop has a parent")
 				c.Check(ownUnspec, "INH", fname, "inheritance guarded by own value unspecified", p.ipos(x), "store dominated by own WheelchairBoarding == NotSpecified", "a stop's own wheelchair_boarding value is overwritten by its parent's")
